@@ -14,5 +14,6 @@ CONSTANTS
   FixD = TRUE
   FixE = TRUE
   FixB = FALSE
+  FixG = FALSE
 INVARIANTS AtMostOncePerDistinctKey OnlyRequested OnlyFromHolder ClosedComplete
 PROPERTIES Liveness
